@@ -96,8 +96,8 @@ func init() {
 	})
 	// ------------------------------------------------------------------ C09
 	register("C09", func(r *Reporter) {
-		r.Cov["rule"] = "TLC enumerates the Tail family (every tail of 1..2 (quick) / 3 (thorough) instructions over load miss/hit, store miss/hit, dependent ALU chain, mul x exit by ret or by running past the end x warm/cold line); each runs on MVP-4..8 x parallelism 1..4; the registers and bytes the tail writes must hold the sequential values. All cases are non-trivial"
-		runFamily(r, "C09", []famRun{famRunOf("Tail", sizeForTier())}, cfgsFrom(4), nil, focusJudge)
+		r.Cov["rule"] = "TLC enumerates the Tail family (every tail of 1..2 (quick) / 3 (thorough) instructions over load miss/hit, store miss/hit, dependent ALU chain, mul x exit by ret or by running past the end x warm/cold line) and the Tail2 family (stores immediately before ret to a line owned Modified by a busy core, 0..10 fillers); each runs on MVP-4..8 x parallelism 1..4; the registers and bytes the tail writes must hold the sequential values. All cases are non-trivial"
+		runFamily(r, "C09", []famRun{famRunOf("Tail", sizeForTier()), famRunOf("Tail2", "small")}, cfgsFrom(4), nil, focusJudge)
 	})
 	// ------------------------------------------------------------------ C10
 	register("C10", func(r *Reporter) {
